@@ -39,6 +39,7 @@ ASSUMPTIONS = ['integers handed to the table are naturals (levels, try counts, p
                'update_one is given column names of queued_urls and a valid status string (a bogus status string '
                'makes every later read of the real table raise LookupError)',
                'the queued_files / convert_check_out side table is outside the property and not modelled',
+               'try counts stay below 2^63 - 1 (at the edge SQLite evaluates `try_count + 1` to the REAL 2^63)',
                'sequential use: one call at a time (each call is one transaction)']
 UNPROVED = []
 
@@ -500,7 +501,7 @@ def uni(rng, n=None):
             out.append(chr(rng.randrange(0x80, 0x800)))
         elif r < 0.85:
             out.append(chr(rng.choice([rng.randrange(0x800, 0xd800), rng.randrange(0xe000, 0x10000)])))
-        elif r < 0.97:
+        elif r < 0.994:
             out.append(chr(rng.randrange(0x10000, 0x110000)))
         else:
             out.append(chr(rng.randrange(0xd800, 0xe000)))
@@ -531,6 +532,11 @@ def gen_nat(rng, allow_big=True):
     return rng.choice([BIG, 2 ** 64, 2 ** 70 + 3])
 
 
+def gen_try(rng):
+    """try counts stay far below 2^63 - 1 (SQLite's `try_count + 1` turns into a REAL there)"""
+    return rng.choice([0, 0, 1, 2, 3, 5, 2 ** 32 + 1, 2 ** 62])
+
+
 def opt(rng, p, f):
     return f() if rng.random() < p else None
 
@@ -546,7 +552,7 @@ def gen_props(rng, pool, full=False):
     if rng.random() < 0.3:
         p['status'] = rng.choice(STATUSES)
     if rng.random() < 0.3:
-        p['try_count'] = gen_nat(rng)
+        p['try_count'] = gen_try(rng)
     if rng.random() < 0.6:
         p['level'] = gen_nat(rng)
     if rng.random() < 0.3:
@@ -587,7 +593,9 @@ def gen_op(rng, pool, allow_reopen=True):
             c = rng.choice(list(ASSIGN_LETTER))
             if c == 'status':
                 kw[c] = rng.choice(STATUSES)
-            elif c in ('try_count', 'level', 'priority'):
+            elif c == 'try_count':
+                kw[c] = gen_try(rng)
+            elif c in ('level', 'priority'):
                 kw[c] = gen_nat(rng)
             elif c in ('inline_level', 'status_code'):
                 kw[c] = opt(rng, 0.8, lambda: gen_nat(rng))
